@@ -171,13 +171,22 @@ class Driver:
 
 
 def load_known_findings():
-    path = os.path.join(VERIF, "KNOWN_FINDINGS.jsonl")
+    """
+    /verif/KNOWN_FINDINGS.txt, one entry per line:
+      known: property=Cxx {"id":..., "signature":{...}, "text":...}   suppresses exactly that signature
+      fixed: property=Cxx <commit> <what failed>                        documentation, suppresses nothing
+    """
+    path = os.path.join(VERIF, "KNOWN_FINDINGS.txt")
     out = []
     if os.path.exists(path):
         for line in open(path):
             line = line.strip()
-            if line and not line.startswith("#"):
-                out.append(json.loads(line))
+            m = re.match(r"known:\s+property=(C\d+)\s+(\{.*\})$", line)
+            if m:
+                d = json.loads(m.group(2))
+                d["property"] = m.group(1)
+                d["status"] = "known"
+                out.append(d)
     return out
 
 
